@@ -1,5 +1,6 @@
 //! Correspondence harness: runs the real btdht code on scripted inputs and prints canonical
 //! observation lines that tools/ compares with the Coq model.
+mod codec;
 mod comp;
 
 fn main() {
@@ -13,6 +14,8 @@ fn main() {
         "txn" => comp::txn(&args[2..]),
         "storage" => comp::storage(&args[2..]),
         "token" => comp::token(&args[2..]),
+        "table" => comp::table(&args[2..]),
+        "codec" => codec::codec(&args[2..]),
         other => {
             eprintln!("unknown subcommand {other}");
             2
